@@ -54,6 +54,7 @@ Oracle calibration (weaker reading wherever the statement leaves latitude)
 import io
 import itertools
 import json
+import logging
 import socket
 import sys
 import time as _realtime
@@ -185,6 +186,10 @@ class Rig:
         bind_clock()
         self.node = nodes.Node({'m': {'cls': M07}}, name='c07n')
         self.iface = nodes.InterfaceStub(self.node)
+        # the connection / dispatcher loggers only feed the capture handler: keep ERROR (what O5 looks at), skip the
+        # creation of four info/debug records per request (module loggers, which serve `logging` requests, are untouched)
+        self.iface.log.setLevel(logging.ERROR)
+        self.node.dispatcher.log.setLevel(logging.ERROR)
         self.mod = self.node.secnode.modules['m']
         self.snapshot = {n: (p.value, p.timestamp, p.readerror) for n, p in self.mod.parameters.items()}
         self.executions = 0
@@ -281,28 +286,30 @@ class Req:
         self.is_help = any(b == b'' or _fields(b)[0] == HELPREQUEST.encode() for b in bodies)
         self.actions = []      # str or None (first token not UTF-8)
         self.specs = []
-        ok = True
-        jc = 'ok'
+        rank = {'ok': 0, 'nonstrict-json': 1, 'broken-json': 2, 'invalid-utf8': 3}
+        best = 'invalid-utf8'
         for (a, s, d), body in zip(self.readings, bodies):
             if body == b'':
                 a = HELPREQUEST.encode()
             self.actions.append(_utf8(a))
             self.specs.append(_utf8(s))
+            jc = 'ok'
             if _utf8(body) is None:
-                ok = False
                 jc = 'invalid-utf8'
             elif d.strip(WS) != b'':
                 try:
                     nodes.strict_loads(d.decode('utf-8'))
                 except (ValueError, RecursionError):
-                    ok = False
                     try:
                         json.loads(d.decode('utf-8'))
                         jc = 'nonstrict-json'
                     except (ValueError, RecursionError):
                         jc = 'broken-json'
-        self.decodes = ok
-        self.jsonclass = jc
+            if rank[jc] < rank[best]:
+                best = jc
+        # a line decodes when one of its readings is valid UTF-8 with a strict-JSON data part
+        self.decodes = best == 'ok'
+        self.jsonclass = best
 
     def allowed(self):
         """the set of permitted reply actions (None: only the prefix error_ is demanded)"""
@@ -317,8 +324,8 @@ class Req:
             res.add(ERRORPREFIX + a)
         return res
 
-    def cls(self):
-        """input class for signatures: <action class>:<line class>"""
+    def acls(self):
+        """action class for signatures"""
         a = self.actions[-1]
         if a is None:
             ac = 'non-utf8-action'
@@ -328,12 +335,19 @@ class Req:
             ac = 'handler-name-' + a
         else:
             ac = 'unknown-action'
+        return ac
+
+    def lcls(self):
+        """line class for signatures"""
         lc = self.jsonclass
         if len(self.readings) > 1:
             lc += '+blank-padded'
         if len(self.raw) >= MESSAGE_READ_SIZE:
             lc += '+long'
-        return f'{ac}:{lc}'
+        return lc
+
+    def cls(self):
+        return f'{self.acls()}:{self.lcls()}'
 
     def __repr__(self):
         return '<req>'
@@ -342,6 +356,16 @@ class Req:
 def _is_handler_name(a):
     from frappy.protocol.dispatcher import Dispatcher
     return a.isidentifier() and hasattr(Dispatcher, 'handle_' + a)
+
+
+def stream_class(reqs):
+    """input class of a whole stream for signatures: number of lines + the worst line class in it"""
+    if not reqs:
+        return 'only-a-partial-line'
+    rank = {'ok': 0, 'nonstrict-json': 1, 'broken-json': 2, 'invalid-utf8': 3}
+    worst = max((r.jsonclass for r in reqs), key=rank.get)
+    long = '+long' if any(len(r.raw) >= MESSAGE_READ_SIZE for r in reqs) else ''
+    return f'{min(len(reqs), 3)}-line-stream:{worst}{long}'
 
 
 def split_stream(stream):
@@ -384,7 +408,7 @@ def judge_output(reqs, out, part, case, where):
         return None
     bad = [e for e in lines if e[1] is None]
     if bad:
-        first = reqs[0].cls() if reqs else 'no-request'
+        first = stream_class(reqs)
         part.violation(f'C07:O1:emitted-line-{bad[0][2]}:{first}', case,
                        f'requests {[r.raw[:60] for r in reqs]!r}: emitted line {bad[0][0][:200]!r} is {bad[0][2]}')
         return None
@@ -399,7 +423,7 @@ def judge_output(reqs, out, part, case, where):
     part.transitions += len(lines)
     if len(replies) != len(reqs):
         how = 'fewer' if len(replies) < len(reqs) else 'more'
-        rc = reqs[0].cls() if reqs else 'only-a-partial-line'
+        rc = stream_class(reqs)
         part.violation(f'C07:O2:{how}-replies-than-request-lines:{rc}', case,
                        f'{len(reqs)} request lines {[r.raw[:60] for r in reqs]!r} got {len(replies)} replies '
                        f'{[e[0][:80] for e in replies]!r} (+{nev} events)')
@@ -409,31 +433,38 @@ def judge_output(reqs, out, part, case, where):
         iserr = a.startswith(ERRORPREFIX) and a not in REQUEST2REPLY.values()
         if allowed is None:
             if not iserr:
-                part.violation(f'C07:O3:{req.cls()}:answered-with-{norm(a)}', case,
+                part.violation(f'C07:O3:{req.acls()}:answered-with-{norm(a)}', case,
                                f'request {req.raw[:80]!r} (action is not UTF-8) answered {raw[:120]!r}, expected error_...')
                 continue
         elif a not in allowed:
-            part.violation(f'C07:O3:{req.cls()}:answered-with-{"error_other" if iserr else norm(a)}', case,
+            got = 'ident-reply' if a == IDENTREPLY else norm(a)
+            # an error reply naming another action: the framing / decoding lost the request's action - one class for all actions
+            sig = f'C07:O3:error-reply-names-a-different-action:{req.lcls()}' if iserr else \
+                f'C07:O3:{req.acls()}:answered-with-{got}'
+            part.violation(sig, case,
                            f'request {req.raw[:80]!r} answered {raw[:120]!r}, expected one of {sorted(allowed)}')
             continue
         if a == IDENTREPLY:
             if s or d is not None:
-                part.violation(f'C07:O3:{req.cls()}:ident-reply-with-extra-fields', case,
+                part.violation(f'C07:O3:{req.acls()}:ident-reply-with-extra-fields', case,
                                f'request {req.raw[:80]!r} answered {raw[:120]!r}')
             part.outcomes['ident'] += 1
             continue
         if iserr:
+            # the handler has three places that build error replies: undecodable line, SECoPError, any other exception (the
+            # last two differ in the class name); the signature names the place + the line class, not the action
+            path = 'internal-error-path' if isinstance(d, list) and d and d[0] == 'InternalError' else 'secop-error-path'
             if not (isinstance(d, list) and len(d) == 3 and isinstance(d[0], str) and isinstance(d[1], str)
                     and isinstance(d[2], dict)):
-                part.violation(f'C07:O4:{req.cls()}:malformed-error-report', case,
+                part.violation(f'C07:O4:malformed-error-report:{req.lcls()}', case,
                                f'request {req.raw[:80]!r} answered {raw[:160]!r}: not [name, text, {{}}]')
                 continue
             if d[0] not in ERRNAMES:
-                part.violation(f'C07:O4:{req.cls()}:error-class-{norm(d[0])}-not-registered', case,
+                part.violation(f'C07:O4:error-class-{norm(d[0])}-not-registered:{req.acls()}', case,
                                f'request {req.raw[:80]!r} answered {raw[:160]!r}')
                 continue
             if req.decodes and s not in req.specs:
-                part.violation(f'C07:O4:{req.cls()}:specifier-not-echoed', case,
+                part.violation(f'C07:O4:specifier-not-echoed:{path}:{req.lcls()}', case,
                                f'request {req.raw[:80]!r} answered {raw[:160]!r}: specifier {s!r}, expected '
                                f'{" or ".join(repr(x) for x in req.specs)}')
                 continue
@@ -449,7 +480,7 @@ def judge_run(run, reqs, part, case, where):
     """O5 + O1-O4"""
     part.traces += 1
     for p in run.problems:
-        rc = reqs[0].cls() if reqs else 'only-a-partial-line'
+        rc = stream_class(reqs)
         part.violation(f'C07:O5:{p}:{rc}', case,
                        f'requests {[r.raw[:60] for r in reqs]!r}: {p}; output {run.out[-160:]!r}')
     return judge_output(reqs, run.out, part, case, where)
@@ -602,8 +633,7 @@ def base_lines():
 
 CORE = ('ident', 'describe', 'activate', 'deactivate-m', 'ping-x', 'read-value', 'change-target', 'change-s', 'do',
         'logging-m', 'help', 'read-nomodule')
-QUICK_PROBES = ('ident', 'activate', 'ping-x', 'read-value', 'read-target', 'read-s', 'change-target', 'do', 'logging-m',
-                'empty', 'read-noparam')
+QUICK_PROBES = ('ident', 'activate', 'read-value', 'read-target', 'read-s', 'change-target', 'do', 'empty')
 PROBES = ('ident', 'describe', 'activate', 'activate-m', 'deactivate', 'ping-x', 'read-m', 'read-value', 'read-target',
           'read-s', 'read-status', 'change-m', 'change-target', 'change-s', 'change-poll', 'do', 'logging-m', 'logging-off',
           'empty', 'help', 'read-noparam', 'change-readonly', 'do-range', 'change-badtype')
@@ -816,7 +846,7 @@ def check_stream(rig, stream, part, where, solo=None):
     run2 = rig.run([stream] if stream else [], watch=True)
     part.traces += 1
     if run2.out != run.out or run2.problems != run.problems:
-        part.violation(f'C07:O8:output-changes-when-another-connection-is-active:{reqs[0].cls() if reqs else ""}',
+        part.violation(f'C07:O8:output-changes-when-another-connection-is-active:{stream_class(reqs)}',
                        case, f'stream {stream[:120]!r}: alone {run.out[:200]!r}, with an activated second connection '
                        f'{run2.out[:200]!r}')
     if replies is not None and solo is not None:
@@ -824,7 +854,7 @@ def check_stream(rig, stream, part, where, solo=None):
         if lines and all(garb):
             part.outcomes['watcher:garbage-only-stream'] += 1
             if run2.conn2:
-                part.violation(f'C07:O8:second-connection-receives-{norm(run2.conn2[0][0])}:{reqs[0].cls()}', case,
+                part.violation(f'C07:O8:second-connection-receives-{norm(run2.conn2[0][0])}:{stream_class(reqs)}', case,
                                f'stream {stream[:120]!r} (every line refused) made another, activated connection receive '
                                f'{run2.conn2[:3]!r}')
         elif run2.conn2:
@@ -841,7 +871,7 @@ def check_stream(rig, stream, part, where, solo=None):
                 if replies[i] != alone:
                     pos = 'after' if i == len(lines) - 1 else 'before' if i == 0 else 'between'
                     gi = 0 if i else 1
-                    part.violation(f'C07:O7:answer-changes-{pos}-garbage:{reqs[i].cls()}:next-to:{reqs[gi].cls()}',
+                    part.violation(f'C07:O7:answer-changes-{pos}-garbage:{reqs[i].acls()}:next-to:{reqs[gi].lcls()}',
                                    case, f'line {l[:80]!r} alone -> {alone[:160]!r}; in {[x[:60] for x in lines]!r} -> '
                                    f'{replies[i][:160]!r}')
     return run.out
@@ -928,14 +958,15 @@ def shard_lines(shard):
 
 def short_atoms(tier):
     """(atoms combined into 1-3 line streams, lines used alone) for the exhaustive-segmentation streams"""
-    atoms = [b'', b'\r', b'help', b'*IDN?', b'_', b'ping x']
-    singles = [b'read m:value', b'change m 1', b'do m:_c 2', b'read m:_s', b'deactivate', b'describe', b'activate', b'logging',
-               b'ping x 1', b'read m {', b'read m NaN', b'change m NaN', b'rea\xc3', b'read  m', b'read m\r', b'help x',
-               b'*IDN? x', b'a b c', b'update', b'ping \xc3\xa4', b'_ident', b'request', b'read x', b'do m', b'read m', b'\xff']
+    atoms = [b'', b'\r', b'help', b'*IDN?', b'ping x']
+    singles = [b'read m:value', b'change m 1', b'do m:_c 2', b'read m:_s', b'activate', b'ping x 1', b'read m {',
+               b'change m NaN', b'rea\xc3', b'read  m', b'read m\r', b'help x', b'_ident', b'request', b'read x', b'read m',
+               b'\xff', b'update']
     if tier == 'thorough':
-        atoms += [b'read m', b'\xff']
+        atoms += [b'_', b'read m', b'\xff']
         singles += [b'read m:target', b'change m:_s "a"', b'change m:_s "\xc3\xa4"', b'activate m', b'logging m "off"',
-                    b'describe .', b'change m:target 1', b'read m:value {', b'read m:nosuch']
+                    b'describe .', b'change m:target 1', b'read m:value {', b'read m:nosuch', b'deactivate', b'describe',
+                    b'logging', b'read m NaN', b'*IDN? x', b'a b c', b'ping \xc3\xa4', b'do m']
     return atoms, singles
 
 
@@ -944,7 +975,8 @@ def short_streams(tier):
     by a partial line"""
     fullmax = 14 if tier == 'quick' else 18
     atoms, singles = short_atoms(tier)
-    partials = [b'', b'r'] if tier == 'quick' else [b'', b'r', b'\xff']
+    partials = [b''] if tier == 'quick' else [b'', b'r']
+    spartials = [b'', b'r'] if tier == 'quick' else [b'', b'r', b'\xff']
     seen = set()
     for k in (1, 2, 3):
         for combo in itertools.product(atoms, repeat=k):
@@ -955,10 +987,10 @@ def short_streams(tier):
                 if len(body + p) <= fullmax:
                     seen.add(body + p)
     for a in singles:
-        for p in partials:
+        for p in spartials:
             if len(a + LF + p) <= fullmax:
                 seen.add(a + LF + p)
-    seen.update(p for p in partials if p)     # no complete line at all
+    seen.update(p for p in spartials if p)     # no complete line at all
     return sorted(seen, key=lambda s: (len(s), s)), fullmax
 
 
@@ -968,8 +1000,8 @@ def shard_short(shard):
     rig = Rig()
     solo = Solo(rig, tier)
     try:
-        for h in shard:
-            stream = bytes.fromhex(h)
+        for stream in short_streams(tier)[0][shard[0]:shard[1]]:
+            h = stream.hex()
             part.states += 1
             part.nontrivial += 1
             base = check_stream(rig, stream, part, 'short-stream', solo)
@@ -992,11 +1024,12 @@ def shard_short(shard):
 
 
 def shard_pairs(shard):
-    """shard = (first index range, mode): streams [A, B] for A in range, B in probes, and [B, A]"""
+    """shard = (lo, hi, mode).  mode 'probes': streams [A, B] and [B, A] for A in range, B in the probe lines (catalogue
+    of the tier); mode 'full' (thorough): [A, B] for A in range, B in the whole quick catalogue, fewer segmentations"""
     lo, hi, mode = shard
     tier = core.TIER
     part = core.Part()
-    cat = catalogue(tier)
+    cat = catalogue(tier if mode == 'probes' else 'quick')
     rig = Rig()
     solo = Solo(rig, tier)
     others = probe_indices(tier) if mode == 'probes' else range(len(cat.v))
@@ -1010,9 +1043,13 @@ def shard_pairs(shard):
                     part.states += 1
                     part.nontrivial += 1
                     base = check_stream(rig, stream, part, 'two-lines', solo)
-                    if len(stream) <= 2200:
-                        explore_segmentations(rig, stream, base, pair_segs(stream, tier), part,
-                                              {'sub': 'stream', 'stream': hexs(stream), 'where': 'two-lines'})
+                    if mode == 'probes':
+                        segs = pair_segs(stream, tier)
+                    else:
+                        c = len(cat.v[x][1]) + 1
+                        segs = [((c,), ()), ((c - 1,), ()), ((c + 1,), ()), ((c - 1, c + 1), ())]
+                    explore_segmentations(rig, stream, base, segs, part,
+                                          {'sub': 'stream', 'stream': hexs(stream), 'where': 'two-lines'})
                     if part.states % 1999 == 1:
                         part.sample({'stream': repr(stream[:100]), 'output': repr(base[:160])})
     finally:
@@ -1030,13 +1067,14 @@ def garbage_reps(tier):
 
 def shard_triples(shard):
     """[G1, L, G2] for G1 in shard, L in probes, G2 in garbage representatives"""
-    g1s = shard
     tier = core.TIER
+    g1s = garbage_reps(tier)[shard[0]:shard[1]]
     part = core.Part()
     cat = catalogue(tier)
     rig = Rig()
     solo = Solo(rig, tier)
-    reps = [g for g in garbage_reps(tier) if len(cat.v[g][1]) < 200 and solo.get(cat.v[g][1])[1]]
+    reps = [g for g in garbage_reps(tier) if len(cat.v[g][1]) < 200 and solo.get(cat.v[g][1])[1]
+            and (cat.v[g][0].endswith('@read-value') or cat.v[g][0].startswith('special-'))][::4]
     try:
         for g1 in g1s:
             if not solo.get(cat.v[g1][1])[1]:
@@ -1151,48 +1189,52 @@ def shard_codec(shard):
                 part.nontrivial += 1 if (s is not None or d is not None) else 0
                 check_triple(t, part)
                 check_canonical(canonical_line(t), part)
-    part.sample({'triple': repr((actions[shard[0]], specs[2], datas[5])),
-                 'frame': repr(encode_msg_frame(actions[shard[0]], specs[2], datas[5]))})
+    if shard[0] == 0:
+        part.sample({'triple': repr((actions[0], specs[2], datas[35])), 'frame': repr(encode_msg_frame(actions[0], specs[2], datas[35]))})
     return part
 
 
 # ---------------------------------------------------------------------------------------------
 
+def short_shards(tier):
+    """index ranges into short_streams(tier), balanced by 2^(len-1)"""
+    streams, fullmax = short_streams(tier)
+    shards, lo, cost = [], 0, 0
+    for i, s in enumerate(streams):
+        cost += 1 << max(len(s) - 1, 0)
+        if cost >= (1 << (fullmax - 1)) * 2:
+            shards.append((lo, i + 1))
+            lo, cost = i + 1, 0
+    if lo < len(streams):
+        shards.append((lo, len(streams)))
+    return shards, len(streams), fullmax
+
+
 def run(ctx):
+    # note: no big objects may live in this frame - the pool workers are forked below it, and frappy's error replies
+    # repr() every local of every frame of the stack (formatExtendedStack)
     tier = ctx.tier
     only = getattr(ctx, 'only', None) or set()
-    cat = catalogue(tier).v
-    n = len(cat)
+    n = len(catalogue(tier).v)
 
     def want(name):
         return not only or name in only
 
     if want('codec'):
-        actions, specs, datas = codec_triples(tier)
-        ctx.pmap(shard_codec, [[i] for i in range(len(actions))], name='codec')
+        ctx.pmap(shard_codec, [[i] for i in range(len(codec_triples(tier)[0]))], name='codec')
     if want('lines'):
-        step = 6
-        ctx.pmap(shard_lines, [(i, min(i + step, n)) for i in range(0, n, step)], name='lines')
-    streams, fullmax = short_streams(tier)
+        ctx.pmap(shard_lines, [(i, min(i + 4, n)) for i in range(0, n, 4)], name='lines')
+    sshards, nstreams, fullmax = short_shards(tier)
     if want('short'):
-        # balance: cost ~ 2^(len-1)
-        shards, cur, cost = [], [], 0
-        for s in reversed(streams):
-            cur.append(s.hex())
-            cost += 1 << max(len(s) - 1, 0)
-            if cost >= (1 << (fullmax - 1)) * 2:
-                shards.append(cur)
-                cur, cost = [], 0
-        if cur:
-            shards.append(cur)
-        ctx.pmap(shard_short, shards, name='short')
+        ctx.pmap(shard_short, sshards, name='short')
     if want('pairs'):
-        mode = 'probes' if tier == 'quick' else 'full'
-        step = 8 if tier == 'quick' else 2
-        ctx.pmap(shard_pairs, [(i, min(i + step, n), mode) for i in range(0, n, step)], name='pairs')
+        ctx.pmap(shard_pairs, [(i, min(i + 4, n), 'probes') for i in range(0, n, 4)], name='pairs')
+    if tier == 'thorough' and want('allpairs'):
+        nq = len(catalogue('quick').v)
+        ctx.pmap(shard_pairs, [(i, i + 1, 'full') for i in range(nq)], name='allpairs')
     if tier == 'thorough' and want('triples'):
-        reps = garbage_reps(tier)
-        ctx.pmap(shard_triples, [reps[i:i + 2] for i in range(0, len(reps), 2)], name='triples')
+        nrep = len(garbage_reps(tier))
+        ctx.pmap(shard_triples, [(i, min(i + 2, nrep)) for i in range(0, nrep, 2)], name='triples')
     ctx.rule = (
         'enumeration: request-line catalogue = grammar of valid/refused SECoP requests (every action) + byte-level mutation '
         'catalogue (invalid UTF-8, broken/truncated/non-strict JSON, missing/extra fields, blanks, CR, control bytes, unknown and '
@@ -1207,8 +1249,8 @@ def run(ctx):
     ctx.coverage.update(
         bound_completed=f'lines<={2 if tier == "quick" else 3} per stream; all segmentations for streams<={fullmax} bytes; '
                         f'<=2 cuts + one-byte chunks beyond',
-        catalogue_lines=n, short_streams=len(streams), fullmax=fullmax,
-        longest_line=max(len(l) for _t, l in cat))
+        catalogue_lines=n, short_streams=nstreams, fullmax=fullmax,
+        longest_line=max(len(l) for _t, l in catalogue(tier).v))
     ctx.assume('detailed_errors is False (the default of the TCP interface)',
                'no poller / other threads run: asynchronous messages arise only inside the handling of the connection\'s own '
                'requests (the concurrent sub-check covers the send lock)',
